@@ -37,9 +37,8 @@ impl Query for FilterAtom {
                     };
 
                     let struct_presented = match res.data {
-                        Data::Ref(v) => struct_check(v.inner),
-                        Data::Refs(e) if e.is_empty() => false,
-                        Data::Refs(elems) => elems.iter().map(|v| v.inner).all(struct_check),
+                        Data::Ref(_) => true,
+                        Data::Refs(e) => !e.is_empty(),
                         _ => false,
                     };
 
